@@ -720,4 +720,287 @@ theorem flipKeepsWeightB_sound (H : Ham) (b a : Slots) (h : flipKeepsWeightB H b
           simp only [flipKeepsWeightB, Bool.and_eq_true, Bool.or_eq_true, decide_eq_true_eq] at h
           exact ⟨h.1, ih a h.2⟩
 
+/-! ### free-spin refresh -/
+
+theorem sameSkeleton_refl (s : Slots) : SameSkeleton s s := by
+  induction s with
+  | nil => exact SameSkeleton.nil
+  | cons x t ih =>
+    cases x with
+    | none => exact SameSkeleton.none ih
+    | some o => exact SameSkeleton.some o o ⟨rfl, rfl, rfl, rfl, rfl⟩ (Or.inl rfl) ih
+
+theorem xorBits_self_false (x : List Bool) : ∀ y, y ∈ xorBits x x → y = false := by
+  induction x with
+  | nil => intro y hy; simp [xorBits] at hy
+  | cons a x ih =>
+    intro y hy
+    simp only [xorBits, List.zipWith_cons_cons, List.mem_cons] at hy
+    rcases hy with hy | hy
+    · rw [hy]; cases a <;> rfl
+    · exact ih y hy
+
+theorem matchL_allFalse (t : List Bool) (vars : List Nat) (vals : List Bool)
+    (hv : ∀ v, v ∈ vars → t[v]? = some false) (hf : ∀ y, y ∈ vals → y = false) :
+    matchL t vars vals = true := by
+  induction vars generalizing vals with
+  | nil => simp [matchL]
+  | cons v vs ih =>
+    cases vals with
+    | nil => simp [matchL]
+    | cons y ys =>
+      rw [matchL_cons, Bool.and_eq_true]
+      refine ⟨?_, ih ys (fun w hw => hv w (List.mem_cons_of_mem _ hw)) (fun z hz => hf z (List.mem_cons_of_mem _ hz))⟩
+      rw [hf y (List.mem_cons_self ..), hv v (List.mem_cons_self ..)]
+      simp
+
+theorem zeroMask_propagate (t : List Bool) (s : Slots)
+    (hv : ∀ o, some o ∈ s → ∀ v, v ∈ o.vars → t[v]? = some false) :
+    propagate t (maskSlots s s) = some t := by
+  induction s with
+  | nil => simp [maskSlots, propagate]
+  | cons x s ih =>
+    cases x with
+    | none =>
+      simp only [maskSlots, propagate]
+      exact ih (fun o ho => hv o (List.mem_cons_of_mem _ ho))
+    | some o =>
+      simp only [maskSlots]
+      have hvo := hv o (List.mem_cons_self ..)
+      have hm : inputsMatch t (maskOp o o) = true := by
+        rw [inputsMatch_eq]
+        exact matchL_allFalse t o.vars _ hvo (xorBits_self_false o.ins)
+      have hw : writeVars t (maskOp o o).vars (maskOp o o).outs = t :=
+        writeVars_of_match t _ _ (matchL_allFalse t o.vars _ hvo (xorBits_self_false o.outs))
+      rw [propagate_some_of hm, hw]
+      exact ih (fun o ho => hv o (List.mem_cons_of_mem _ ho))
+
+theorem mem_coveredVars {s : Slots} {o : Op} {v : Nat} (ho : some o ∈ s) (hv : v ∈ o.vars) :
+    v ∈ coveredVars s := by
+  unfold coveredVars
+  rw [List.mem_flatMap]
+  exact ⟨some o, ho, hv⟩
+
+/-- the free-spin refresh is a spin flip with an empty operator mask -/
+theorem free_spinFlip (H : Ham) (n : Nat) (hH : HamWF H n) (b a : Config) (hn : b.state.length = n)
+    (hl : Legal H b) (h : FreeStep b a) : SpinFlipStep b a := by
+  obtain ⟨hs, hlen, hv⟩ := h
+  refine ⟨hlen, by rw [hs]; exact sameSkeleton_refl _, ?_⟩
+  unfold Consistent maskConfig
+  simp only
+  rw [hs]
+  apply zeroMask_propagate
+  intro o ho v hvo
+  have hcov := hv v (mem_coveredVars ho hvo)
+  obtain ⟨l1, l2, _⟩ := hl o ho
+  have hvn : v < n := (hH o.bond l1).2 v (by rw [← l2]; exact hvo)
+  have h1 : v < b.state.length := by omega
+  have h2 : v < a.state.length := by omega
+  rw [List.getElem?_eq_getElem h1, List.getElem?_eq_getElem h2] at hcov
+  have := xorBits_getElem? b.state a.state v _ _ (List.getElem?_eq_getElem h1) (List.getElem?_eq_getElem h2)
+  rw [this]
+  simp only [Option.some.injEq] at hcov
+  rw [hcov]; simp
+
+theorem freeB_sound (b a : Config) (h : freeB b a = true) : FreeStep b a := by
+  simp only [freeB, Bool.and_eq_true, decide_eq_true_eq, List.all_eq_true, beq_iff_eq] at h
+  exact ⟨h.1.1, h.1.2, h.2⟩
+
+theorem flipKeepsWeight_refl (H : Ham) (s : Slots) : FlipKeepsWeight H s s := by
+  induction s with
+  | nil => simp [FlipKeepsWeight]
+  | cons x s ih => cases x <;> simp [FlipKeepsWeight, ih]
+
+/-! ### re-bonding (RVB) -/
+
+theorem rebondSlotsB_sound (H : Ham) (st : List Bool) (m a : Slots) (h : rebondSlotsB H st m a = true) :
+    RebondSlots H st m a := by
+  induction m generalizing st a with
+  | nil => cases a with
+    | nil => exact RebondSlots.nil st
+    | cons y a => simp [rebondSlotsB] at h
+  | cons x m ih =>
+    cases a with
+    | nil => cases x <;> simp [rebondSlotsB] at h
+    | cons y a =>
+      cases x with
+      | none => cases y with
+        | none => exact RebondSlots.none (ih st a (by simpa [rebondSlotsB] using h))
+        | some o' => simp [rebondSlotsB] at h
+      | some o => cases y with
+        | none => simp [rebondSlotsB] at h
+        | some o' =>
+          simp only [rebondSlotsB] at h
+          split at h
+          · rename_i he; subst he; exact RebondSlots.same o' (ih _ a h)
+          · simp only [Bool.and_eq_true, decide_eq_true_eq] at h
+            obtain ⟨⟨h1, h2, h3, h4, h5, h6, h7, h8, h9⟩, h10⟩ := h
+            rw [h8]
+            exact RebondSlots.rebond o o'.bond h1 h2 h3 h4 h5 h6 h7 h9 (ih st a h10)
+
+theorem rebondSlots_propagate (H : Ham) (n : Nat) (hH : HamWF H n) {st : List Bool} {m a : Slots}
+    {r : List Bool} (h : RebondSlots H st m a) (hn : st.length = n)
+    (hp : propagate st m = some r) : propagate st a = some r := by
+  induction h generalizing r with
+  | nil st => exact hp
+  | none _ ih => exact ih hn (by simpa [propagate] using hp) |> fun x => by simpa [propagate] using x
+  | same o _ ih =>
+    obtain ⟨hm, h2⟩ := propagate_some_eq hp
+    rw [propagate_some_of hm]
+    exact ih (by rw [writeVars_length]; exact hn) h2
+  | @rebond st m a o bd ht ho hm _ _ hb _ _ _ ih =>
+    obtain ⟨_, h2⟩ := propagate_some_eq hp
+    have hw : writeVars st o.vars o.outs = st := by rw [ho]; exact writeVars_of_match st _ _ hm
+    rw [hw] at h2
+    rw [propagate_some_of (insertedOp_match H n hH st hn bd hb), insertedOp_write H n hH st hn bd hb]
+    exact ih hn h2
+
+theorem rebond_pres (H : Ham) (n : Nat) (hH : HamWF H n) (m a : Config) (hn : m.state.length = n)
+    (hc : Consistent m) (h : RebondStep H m a) : Consistent a := by
+  obtain ⟨hs, hr⟩ := h
+  unfold Consistent
+  rw [hs]
+  exact rebondSlots_propagate H n hH hr hn hc
+
+theorem rvbB_sound (H : Ham) (b a : Config) (h : rvbB H b a = true) : RvbStep H b a := by
+  simp only [rvbB, Bool.and_eq_true] at h
+  refine ⟨rvbMid b a, spinFlipB_sound _ _ h.1, ?_⟩
+  have h2 := h.2
+  simp only [rebondB, Bool.and_eq_true, decide_eq_true_eq] at h2
+  exact ⟨h2.1, rebondSlotsB_sound H _ _ _ h2.2⟩
+
+/-- an RVB update keeps consistency -/
+theorem rvb_consistent (H : Ham) (n : Nat) (hH : HamWF H n) (b a : Config) (hn : b.state.length = n)
+    (hc : Consistent b) (h : RvbStep H b a) : Consistent a := by
+  obtain ⟨m, h1, h2⟩ := h
+  exact rebond_pres H n hH m a (by rw [h1.1]; exact hn) (linkClosed_flip_consistent_aux b m hc h1) h2
+
+theorem sameSkel_legal_op (H : Ham) {o1 o2 : Op} (hs : o1.sameSkel o2) (ht : o1.tagOk o2)
+    (hw : o2 = o1 ∨ 0 < H.w o2.bond o2.ins o2.outs) (hl1 : o1.LegalFor H) : o2.LegalFor H := by
+  rcases hw with he | hpos
+  · rw [he]; exact hl1
+  · obtain ⟨hv, hb, hcst, hi, hou⟩ := hs
+    obtain ⟨l1, l2, l3, l4, l5, l6⟩ := hl1
+    have htag : o2.tagDiag = true ↔ o2.ins = o2.outs := by
+      rcases ht with he | he
+      · rw [he]; exact l4
+      · rw [he]; simp
+    refine ⟨by rw [hb]; exact l1, by rw [hv, hb]; exact l2, by rw [hcst, hb]; exact l3, htag, ?_, hpos⟩
+    refine ⟨by rw [hi, hv]; exact l5.1, by rw [hou, hv]; exact l5.2.1, by rw [hv]; exact l5.2.2.1, ?_⟩
+    intro h; exact (htag.mp h).symm
+
+/-- legality after an RVB update: kept operators by the weight hypothesis, re-bonded ones by
+construction -/
+theorem rvb_legal_slots (H : Ham) (n : Nat) (hH : HamWF H n) {b m a : Slots} {st : List Bool}
+    (hs : SameSkeleton b m) (hr : RebondSlots H st m a) (hw : FlipKeepsWeight H b a)
+    (hl : ∀ o, some o ∈ b → o.LegalFor H) : ∀ o, some o ∈ a → o.LegalFor H := by
+  induction hs generalizing st a with
+  | nil => cases hr; intro o ho; simp at ho
+  | none _ ih =>
+    cases hr with
+    | none hr' =>
+      intro o ho
+      simp only [List.mem_cons] at ho
+      rcases ho with ho | ho
+      · cases ho
+      · exact ih hr' (by simpa [FlipKeepsWeight] using hw) (fun o ho => hl o (List.mem_cons_of_mem _ ho)) o ho
+  | some o1 o2 hsk ht _ ih =>
+    cases hr with
+    | same _ hr' =>
+      intro o ho
+      simp only [FlipKeepsWeight] at hw
+      simp only [List.mem_cons] at ho
+      rcases ho with ho | ho
+      · cases ho
+        exact sameSkel_legal_op H hsk ht hw.1 (hl o1 (List.mem_cons_self ..))
+      · exact ih hr' hw.2 (fun o ho => hl o (List.mem_cons_of_mem _ ho)) o ho
+    | rebond _ bd _ _ _ _ _ hb _ hpos hr' =>
+      intro o ho
+      simp only [FlipKeepsWeight] at hw
+      simp only [List.mem_cons] at ho
+      rcases ho with ho | ho
+      · cases ho
+        exact insertedOp_legal H n hH _ bd hb hpos
+      · exact ih hr' hw.2 (fun o ho => hl o (List.mem_cons_of_mem _ ho)) o ho
+
+/-! ### moves -/
+
+theorem moveB_sound (b a : Config) (h : moveB b a = true) : MoveStep b a := by
+  simp only [moveB, Bool.and_eq_true, decide_eq_true_eq] at h
+  exact ⟨h.1, _, h.2⟩
+
+theorem move_consistent (b a : Config) (hc : Consistent b) (h : MoveStep b a) : Consistent a := by
+  obtain ⟨hs, k, hk⟩ := h
+  unfold Consistent
+  rw [hs, hk, propagate_append_none]
+  exact hc
+
+theorem move_legal (H : Ham) (b a : Config) (hl : Legal H b) (h : MoveStep b a) : Legal H a := by
+  obtain ⟨_, k, hk⟩ := h
+  intro o ho
+  rw [hk] at ho
+  simp only [List.mem_append, List.mem_replicate] at ho
+  rcases ho with ho | ho
+  · exact hl o ho
+  · cases ho.2
+
+theorem legal_transfer (H H' : Ham) (c : Config) (hs : SupportLe H H') (hl : Legal H c) : Legal H' c := by
+  intro o ho
+  obtain ⟨l1, l2, l3, l4, l5, l6⟩ := hl o ho
+  obtain ⟨s1, s2, s3, s4⟩ := hs o.bond l1
+  exact ⟨s1, by rw [s2]; exact l2, by rw [s3]; exact l3, l4, l5, s4 _ _ l6⟩
+
+/-! ### one call, histories -/
+
+theorem step_pres (H : Ham) (n : Nat) (hH : HamWF H n) (b a : Config) (h : Step H b a)
+    (hn : b.state.length = n) (hc : Consistent b) (hl : Legal H b) :
+    Consistent a ∧ Legal H a ∧ a.state.length = n := by
+  cases h with
+  | diag L hL hd =>
+    obtain ⟨h1, h2, h3⟩ := diagSweep_pres_aux H n L hH b a hn hL hc hl hd
+    exact ⟨h1, h2, by rw [h3]; exact hn⟩
+  | flip hf hw =>
+    refine ⟨linkClosed_flip_consistent_aux b a hc hf, ?_, by rw [hf.1]; exact hn⟩
+    exact sameSkeleton_legal H hf.2.1 hw hl
+  | rvb hr hw =>
+    refine ⟨rvb_consistent H n hH b a hn hc hr, ?_, ?_⟩
+    · obtain ⟨m, h1, h2⟩ := hr
+      exact rvb_legal_slots H n hH h1.2.1 h2.2 hw hl
+    · obtain ⟨m, h1, h2⟩ := hr
+      rw [h2.1, h1.1]; exact hn
+  | move hm =>
+    exact ⟨move_consistent b a hc hm, move_legal H b a hl hm, by rw [hm.1]; exact hn⟩
+
+theorem history_inv (n : Nat) (l : List (Ham × Config)) : ∀ (H : Ham) (c : Config), HamWF H n →
+    c.state.length = n → Consistent c → Legal H c → History n H c l →
+    ∀ hc, hc ∈ l → Consistent hc.2 ∧ Legal hc.1 hc.2 := by
+  induction l with
+  | nil => intro H c _ _ _ _ _ hc h; simp at h
+  | cons x rest ih =>
+    intro H c hH hn hcons hleg hist hc hmem
+    obtain ⟨H', c'⟩ := x
+    simp only [History] at hist
+    obtain ⟨hstep, hrest⟩ := hist
+    have key : HamWF H' n ∧ Consistent c' ∧ Legal H' c' ∧ c'.state.length = n := by
+      rcases hstep with ⟨he, hs⟩ | ⟨hH', hsup, hm⟩
+      · subst he
+        exact ⟨hH, step_pres _ n hH c c' hs hn hcons hleg⟩
+      · exact ⟨hH', move_consistent c c' hcons hm,
+          legal_transfer H H' c' hsup (move_legal H c c' hleg hm), by rw [hm.1]; exact hn⟩
+    simp only [List.mem_cons] at hmem
+    rcases hmem with he | hmem
+    · subst he; exact ⟨key.2.1, key.2.2.1⟩
+    · exact ih H' c' key.1 key.2.2.2 key.2.1 key.2.2.1 hrest hc hmem
+
+/-- the empty string with any state is consistent and legal -/
+theorem empty_consistent_legal (H : Ham) (st : List Bool) (L : Nat) :
+    Consistent ⟨st, List.replicate L none⟩ ∧ Legal H ⟨st, List.replicate L none⟩ := by
+  constructor
+  · unfold Consistent
+    have := propagate_append_none st [] L
+    simpa [propagate] using this
+  · intro o ho
+    simp only [List.mem_replicate] at ho
+    cases ho.2
+
 end Qmc
